@@ -711,7 +711,7 @@ def route2(ctx, pid):
     getf = c.methods.get("_get")
     if f is None or getf is None:
         raise AnalysisError("anchor vanished: BinaryTrie.get / _get")
-    rets = {st.ret for p, st in pq.states(ctx, f) if p.exit[0] == "return"}
+    rets = pq.rets(ctx, f)
     w = ("call", BIN + "._get", (("self",), ("attr", ("self",), "root_hash"), ("call", "trie.utils.binaries:encode_to_bin", (("p", f.params[1]),), ())), ())
     if rets == {w}:
         ctx.ok("route:BinaryTrie.get", f.loc(), "get(key) is _get(self.root_hash, encode_to_bin(key))")
@@ -737,6 +737,7 @@ def live(ctx, pid):
     Every dispatch on the node type is exhaustive (no implicit None)."""
     eng = S(ctx)
     n = 0
+    cases = set()
     for f in util.class_functions(ctx, BIN):
         raises = [r for r in walk_shallow(f.node) if isinstance(r, ast.Raise) and r.exc is not None and "NodeOverrideError" in ctx.R.exc_name(r.exc, f)]
         if not raises:
@@ -746,6 +747,14 @@ def live(ctx, pid):
             lr = pq.local_raise(p)
             if lr is not None:
                 alive.add(lr.lineno)
+                if "NodeOverrideError" in p.exit[1]:
+                    # refusal cases are counted per node kind, not per raise statement: two arms merged into one
+                    # site that serves both kinds are still two cases
+                    ks = set()
+                    for pt in parse_terms(st):
+                        ks |= binkind(ctx, ("sub", pt, C(0)), st.facts)
+                    for k_ in (ks or {"-"}):
+                        cases.add((f.qual, k_))
         for i, r in enumerate(sorted(raises, key=lambda r: r.lineno)):
             n += 1
             c = "refusal-live:%s#%d" % (fkey(f), i)
@@ -753,7 +762,7 @@ def live(ctx, pid):
                 ctx.ok(c, f.loc(r), "the refusal is reachable under its path conditions")
             else:
                 ctx.bad(c, f.loc(r), "this NodeOverrideError can never be raised: the conditions leading to it contradict each other (a conflicting key is accepted instead)")
-    ctx.expect_min("NodeOverrideError sites", n, 4, "leaf arm, kv arm, branch arm, split arm")
+    ctx.expect_min("NodeOverrideError sites", len(cases), 4, "leaf arm, kv arm, branch arm of _set; split arm of _set_kv_node (%d raise statements)" % n)
     # ABS2b: the dispatch of _get / _set is exhaustive
     K = consts(ctx)
     for name in ("_set",):
@@ -1358,7 +1367,7 @@ def route3(ctx, pid):
         w = ("call", BR + walker, args(f), ())
         if tup:
             w = ("call", "ext:tuple", (w,), ())
-        rets = {st.ret for p, st in pq.states(ctx, f) if p.exit[0] == "return"}
+        rets = pq.rets(ctx, f)
         c = "route:%s" % pub
         if rets == {w}:
             ctx.ok(c, f.loc(), "returns `%s`" % tstr(w)[:90])
@@ -1366,7 +1375,7 @@ def route3(ctx, pid):
             ctx.bad(c, f.loc(), "%s returns `%s`, expected `%s`" % (pub, "; ".join(tstr(r)[:70] for r in rets), tstr(w)[:90]))
     # if_branch_valid: the only normal outcome is True
     f = ctx.P.func(BR + "if_branch_valid")
-    rets = {st.ret for p, st in pq.states(ctx, f, unroll=1) if p.exit[0] in ("return", "fall")}
+    rets = pq.rets(ctx, f, exits=("return", "fall"), unroll=1)
     if rets == {C(True)}:
         ctx.ok("verdict:if_branch_valid", f.loc(), "every path that passes the checks returns True", nontrivial=False)
     else:
